@@ -22,7 +22,10 @@ call is the join block J, i.e. "the continuation after the call", where `dest` h
 Never spliced: callees that take or return lock guards (the guard analysis has its own wrapper
 summaries and would see a double acquisition), trait-impl methods, closures, diverging calls.
 """
+import hashlib
+import json
 import os
+import re
 from collections import defaultdict
 
 MAX_CALLEE_BLOCKS = 300   # size of the callee *after* its own helpers were spliced in
@@ -100,9 +103,11 @@ def _map_term(t, off, boff, join):
              mb(t[4]), mb(t[5]), t[6]]
         if len(t) > 7:
             i = dict(t[7])
-            for key in ("entry", "join", "after"):
-                i[key] = mb(i[key])
-            i["ret"] = i["ret"] + off
+            for key in ("entry", "join", "after", "dispatch"):
+                if key in i:
+                    i[key] = mb(i[key])
+            if "ret" in i:
+                i["ret"] = i["ret"] + off
             r.append(i)
         return r
     if k == "assert":
@@ -118,14 +123,240 @@ def _map_term(t, off, boff, join):
     return t
 
 
+_BASE = None
+
+
+def baseline():
+    """{canonical fn name: [is_private, fingerprint]} of the tree the rules were written and confirmed on"""
+    global _BASE
+    if _BASE is None:
+        p = os.path.join(os.path.dirname(os.path.abspath(__file__)), "baseline_fns.json")
+        with open(p) as fh:
+            _BASE = json.load(fh)["fns"]
+    return _BASE
+
+
 def baseline_units():
-    p = os.path.join(os.path.dirname(os.path.abspath(__file__)), "baseline_private_fns.txt")
-    with open(p) as fh:
-        return {l.strip() for l in fh if l.strip() and not l.startswith("#")}
+    return {n for n, (pv, _) in baseline().items() if pv}
+
+
+def fingerprint(b):
+    """name-independent identity of a function: signature types + multiset of resolved callees (without itself).
+    A pure rename keeps it; used to recognise a renamed baseline function (git-style rename detection)."""
+    me = _strip(b["id"])
+    cal = []
+    for bl in b["blocks"]:
+        t = bl["t"]
+        if t[0] == "call" and "ind" not in t[1]:
+            n = _strip(t[1].get("r") or t[1].get("p") or "")
+            if n != me:
+                cal.append(n)
+    norm = lambda ty: re.sub(r"\{(closure|coroutine|async [a-z ]+)@[^}]*\}", "{closure}", ty)
+    sig = [b.get("kind"), _strip(b.get("self_ty") or ""), b["argc"], [norm(b["locals"][i][0]) for i in range(0, b["argc"] + 1)]]
+    return hashlib.sha1(json.dumps([sig, sorted(cal)]).encode()).hexdigest()[:16]
+
+
+def detect_renames(raw):
+    """{new canonical name: old canonical name} for baseline functions that are missing under their old name while
+    exactly one function unknown to the baseline has the same fingerprint, in the same impl (self type)"""
+    base = baseline()
+    cur = {}
+    for b in raw["bodies"]:
+        if b.get("kind") in ("fn", "method"):
+            cur[_strip(b["id"])] = b
+    missing = [n for n in base if n not in cur]
+    fresh = [n for n in cur if n not in base]
+    if not missing or not fresh:
+        return {}
+    by_fp = defaultdict(list)
+    for n in fresh:
+        by_fp[fingerprint(cur[n])].append(n)
+    old_by_fp = defaultdict(list)
+    for n in missing:
+        old_by_fp[base[n][1]].append(n)
+    res = {}
+    for fp_, olds in old_by_fp.items():
+        news = by_fp.get(fp_, [])
+        if len(olds) == 1 and len(news) == 1:
+            o, n = olds[0], news[0]
+            if o.rsplit("::", 1)[0] == n.rsplit("::", 1)[0]:  # same module / impl path, only the last segment changed
+                res[n] = o
+    return res
 
 
 def _is_guardish(ty):
     return any(m in ty for m in GUARD_MARKERS)
+
+
+def closure_fingerprints(raw):
+    """{canonical parent fn: sorted list of fingerprints of the closures defined (at any depth) in it}"""
+    res = defaultdict(list)
+    for b in raw["bodies"]:
+        if b.get("kind") == "closure" and b.get("root"):
+            res[_strip(b["root"])].append(fingerprint(b))
+    return {k: sorted(v) for k, v in res.items()}
+
+
+def splice_closures(raw):
+    """A closure that is passed straight to a non-local higher-order function (`iter.any(|x| ..)`, `.for_each(..)`,
+    `.map_err(..)`, `.retain(..)` ...) and that is NOT one of the baseline closures of its function is copied into the
+    function's CFG at the call site, as code that runs zero or more times:
+
+        bb:  call std_fn(.., closure, ..) -> dest        [succ: D]
+        D:   switch <unknown> [-> E' (closure entry), -> T (old target)]
+        E'.. copy of the closure's blocks; `_1'` = &closure value (so captured variables resolve through the
+             closure aggregate); every return -> D
+
+    Purpose: rewriting a `for` loop as an iterator chain (or back) does not hide the loop body from the rules."""
+    bodies = {b["id"]: b for b in raw["bodies"]}
+    base = baseline_closures()
+    report = {"sites": 0, "closures": []}
+    budget = defaultdict(list)
+    for par, fps in base.items():
+        budget[par] = list(fps)
+    # decide which closures are new: per root fn, remove baseline fingerprints one by one
+    new_closures = set()
+    for b in sorted(raw["bodies"], key=lambda x: x["id"]):
+        if b.get("kind") != "closure" or not b.get("root"):
+            continue
+        root = _strip(b["root"])
+        root = raw.get("_closure_root_alias", {}).get(root, root)
+        fp_ = fingerprint(b)
+        if fp_ in budget.get(root, []):
+            budget[root].remove(fp_)
+        else:
+            new_closures.add(b["id"])
+    if not new_closures:
+        return report
+    for A in sorted(raw["bodies"], key=lambda x: -len(x["id"])):  # inner closures first
+        nblocks0 = len(A["blocks"])
+        # local -> closure def (through plain moves)
+        cdef = {}
+        for bl in A["blocks"]:
+            for st in bl["s"]:
+                if st[0] == "=" and len(st[1]) == 1 and st[2][0] == "agg" and st[2][1] == "closure" and st[2][3]:
+                    cdef[st[1][0]] = st[2][3]["def"]
+        if not cdef:
+            continue
+        ch = True
+        while ch:
+            ch = False
+            for bl in A["blocks"]:
+                for st in bl["s"]:
+                    if st[0] == "=" and len(st[1]) == 1 and st[1][0] not in cdef and st[2][0] == "use" and st[2][1][0] in ("c", "m") \
+                            and len(st[2][1][1]) == 1 and st[2][1][1][0] in cdef:
+                        cdef[st[1][0]] = cdef[st[2][1][1][0]]
+                        ch = True
+        def ok_closure(did):
+            D = bodies.get(did)
+            return D is not None and did in new_closures and D.get("kind") == "closure" and D["file"] == A["file"] \
+                and len(D["blocks"]) <= MAX_CALLEE_BLOCKS and len(A["blocks"]) + len(D["blocks"]) <= MAX_CALLER_BLOCKS
+
+        def copy_in(bl, D, did, env_local, others, ret_to):
+            """append a copy of closure D; returns (local offset, entry block).  Block numbers: entry = current end"""
+            off = len(A["locals"])
+            boff = len(A["blocks"])
+            for ty, nm in D["locals"]:
+                A["locals"].append([ty, ("closure::%s" % nm) if nm else None])
+            env_ty = D["locals"][1][0] if len(D["locals"]) > 1 else ""
+            if env_ty.startswith("&"):
+                bl["s"].append(["=", [off + 1], ["ref", env_ty.startswith("&mut"), [env_local]], bl["l"]])
+            else:
+                bl["s"].append(["=", [off + 1], ["use", ["c", [env_local]]], bl["l"]])
+            # the closure's own parameters are supplied by the higher-order function; provenance: whatever it hands to the
+            # closure derives from its other arguments (`opt.is_some_and(|&v| ..)`: v comes from opt)
+            for k in range(2, D["argc"] + 1):
+                if others:
+                    for x in others:
+                        bl["s"].append(["=", [off + k], ["use", ["c", x[1]]], bl["l"]])
+                else:
+                    bl["s"].append(["=", [off + k], ["use", ["k", {"ty": "closure-argument"}]], bl["l"]])
+            for cb in D["blocks"]:
+                A["blocks"].append({"c": cb["c"], "s": [_map_stmt(s_, off) for s_ in cb["s"]],
+                                    "t": _map_term(cb["t"], off, boff, ret_to), "l": cb["l"], "x": cb["x"], "inl": did})
+            A.setdefault("inlined", [])
+            if did not in A["inlined"]:
+                A["inlined"].append(did)
+            D["absorbed"] = True
+            report["sites"] += 1
+            report["closures"].append(did)
+            return off, boff
+
+        # pass 1: higher-order call sites with a new closure argument; lazy `filter` adapters and what consumes them
+        sites_ = []
+        adapter = {}   # local holding an iterator adapter -> index into sites_ of the filter site that produced it
+        for i in range(nblocks0):
+            bl = A["blocks"][i]
+            t = bl["t"]
+            if t[0] != "call" or len(t) > 7 or bl["c"] or t[4] is None or "ind" in t[1] or t[1].get("local"):
+                continue
+            for a in t[2]:
+                if a[0] in ("c", "m") and len(a[1]) == 1 and a[1][0] in cdef and ok_closure(cdef[a[1][0]]):
+                    sites_.append({"i": i, "a": a, "did": cdef[a[1][0]], "filter": _strip(t[1].get("p", "")).endswith("Iterator::filter"), "consumed": False})
+                    if sites_[-1]["filter"] and len(t[3]) == 1:
+                        adapter[t[3][0]] = len(sites_) - 1
+        ch = bool(adapter)
+        while ch:
+            ch = False
+            for bl in A["blocks"][:nblocks0]:
+                for st in bl["s"]:
+                    if st[0] == "=" and len(st[1]) == 1 and st[1][0] not in adapter and st[2][0] == "use" and st[2][1][0] in ("c", "m") \
+                            and len(st[2][1][1]) == 1 and st[2][1][1][0] in adapter:
+                        adapter[st[1][0]] = adapter[st[2][1][1][0]]
+                        ch = True
+                t = bl["t"]
+                if t[0] == "call" and len(t[3]) == 1 and t[3][0] not in adapter and t[2] and t[2][0][0] in ("c", "m") and len(t[2][0][1]) == 1 \
+                        and t[2][0][1][0] in adapter and ("::iter::" in t[6]):
+                    adapter[t[3][0]] = adapter[t[2][0][1][0]]   # .map(..) / .enumerate() / .rev() ... keep the filter in front
+                    ch = True
+        for sx in sites_:
+            t = A["blocks"][sx["i"]]["t"]
+            r0 = t[2][0] if t[2] else None
+            if not sx["filter"] and r0 and r0[0] in ("c", "m") and len(r0[1]) == 1 and r0[1][0] in adapter and r0 is not sx["a"]:
+                sx["pred"] = adapter[r0[1][0]]
+                sites_[sx["pred"]]["consumed"] = True
+        # pass 2: splice
+        for sx in sites_:
+            if sx["filter"] and sx["consumed"]:
+                continue   # runs lazily, inside its consumer (below)
+            bl = A["blocks"][sx["i"]]
+            t = bl["t"]
+            a = sx["a"]
+            did = sx["did"]
+            T = t[4]
+            disp = len(A["blocks"])
+            A["blocks"].append(None)  # placeholder for the dispatch block
+            others = [x for x in t[2] if x is not a and x[0] in ("c", "m")]
+            if "pred" in sx:
+                # `iter.filter(pred).<consumer>(body)`: body runs only for elements on which pred returned true
+                px = sites_[sx["pred"]]
+                pt = A["blocks"][px["i"]]["t"]
+                pothers = [x for x in pt[2] if x is not px["a"] and x[0] in ("c", "m")]
+                sel = len(A["blocks"])
+                A["blocks"].append(None)
+                poff, pentry = copy_in(bl, bodies[px["did"]], px["did"], px["a"][1][0], pothers, sel)
+                coff, centry = copy_in(bl, bodies[did], did, a[1][0], others, disp)
+                A["blocks"][sel] = {"c": False, "s": [], "t": ["switch", ["c", [poff]], [["0", disp]], centry], "l": bl["l"], "x": bl["x"], "inl": px["did"]}
+                first = pentry
+            else:
+                coff, centry = copy_in(bl, bodies[did], did, a[1][0], others, disp)
+                first = centry
+            A["blocks"][disp] = {"c": False, "s": [], "t": ["switch", ["k", {"ty": "bool"}], [["0", T]], first], "l": bl["l"], "x": bl["x"], "inl": did}
+            after = T if not (len(t) > 7) else t[7]["after"]
+            bl["t"] = ["call", t[1], t[2], t[3], disp, t[5], t[6], {"hof": True, "after": after, "dispatch": disp, "closure": did}]
+    return report
+
+
+_BASE_CL = None
+
+
+def baseline_closures():
+    global _BASE_CL
+    if _BASE_CL is None:
+        p = os.path.join(os.path.dirname(os.path.abspath(__file__)), "baseline_fns.json")
+        with open(p) as fh:
+            _BASE_CL = json.load(fh).get("closures", {})
+    return _BASE_CL
 
 
 def inline_private_helpers(raw):
@@ -135,6 +366,8 @@ def inline_private_helpers(raw):
     for bid in bodies:
         canon.setdefault(_strip(bid), bid)
 
+    back = {v: k for k, v in raw.get("_renamed", {}).items()}  # real (new) name -> baseline name carried by the body id
+
     def direct_callee(t):
         cal = t[1]
         if "ind" in cal or cal.get("dyn") or cal.get("unres"):
@@ -142,7 +375,8 @@ def inline_private_helpers(raw):
         p = cal.get("r") or cal.get("p")
         if not p:
             return None
-        return canon.get(_strip(p))
+        n = _strip(p)
+        return canon.get(back.get(n, n))
 
     # candidate helpers
     def eligible(b):
@@ -281,20 +515,24 @@ def inline_private_helpers(raw):
 
 
 if __name__ == "__main__":
-    import json
     import sys
     if "--freeze" in sys.argv:
         os.environ["SKV_NO_INLINE"] = "1"
         from .runner import get_facts
         f, _ = get_facts()
-        names = sorted({_strip(b.id) for b in f.bodies.values() if b.is_priv})
-        p = os.path.join(os.path.dirname(os.path.abspath(__file__)), "baseline_private_fns.txt")
-        with open(p) as fh:
-            head = [l for l in fh if l.startswith("#")]
+        fns = {}
+        for b in f.raw["bodies"]:
+            if b.get("kind") in ("fn", "method"):
+                fns[_strip(b["id"])] = [1 if b.get("priv") else 0, fingerprint(b)]
+        p = os.path.join(os.path.dirname(os.path.abspath(__file__)), "baseline_fns.json")
         with open(p, "w") as fh:
-            fh.write("".join(head) + "\n".join(names) + "\n")
-        print("froze %d private functions" % len(names))
+            json.dump({"comment": "functions of surrealkv at the time the rules were written and confirmed: [private?, fingerprint]. "
+                                  "Private ones are analysed as units; any other private helper is spliced into its callers; a baseline "
+                                  "function missing under its name is looked up by fingerprint (rename detection). Regenerate with "
+                                  "python3 -m skvlint.inline --freeze only after re-confirming the rules on the new tree.",
+                       "fns": dict(sorted(fns.items())), "closures": dict(sorted(closure_fingerprints(f.raw).items()))}, fh, indent=0)
+        print("froze %d functions (%d private)" % (len(fns), sum(1 for v in fns.values() if v[0])))
     else:
         from .runner import get_facts
         f, _ = get_facts()
-        print(json.dumps(f.inline_report, indent=1))
+        print(json.dumps({"renamed": f.renamed, "inline": f.inline_report}, indent=1))
